@@ -79,7 +79,9 @@ Theorem each_event_at_most_once : forall limit fuel ops,
 Proof. exact fact_once. Qed.
 Print Assumptions each_event_at_most_once.
 
-(** run() releases exactly once, after its function's result is available: in the log (newest first)
+(** run() releases exactly once, after its function's result is available — i.e. when the Deferred the function
+    returned DELIVERS a result down its chain ([EFnDone]), which for an already-fired Deferred whose chain is
+    suspended ([FChain]) is later than "fired" —: in the log (newest first)
     the event right after "function result of run j available" is the release by j; j's result is delivered
     only after both; and j releases at most once ([each_event_at_most_once]) *)
 Theorem run_releases_right_after_its_result_is_available : forall limit fuel ops l1 x l2 j,
